@@ -1,4 +1,5 @@
 import RgVerif.Model.ReplaceMulti
+import RgVerif.Driver.PrinterProto
 /-
 Driver ops for C19 under -U (`c19.ml…`); `Driver/C19.lean` delegates unknown `c19.ml…` commands here.
 
@@ -6,6 +7,8 @@ Driver ops for C19 under -U (`c19.ml…`); `Driver/C19.lean` delegates unknown `
   c19.mlprint LT HAYHEX RS RE ABSOFF LN|~ TMPLHEX (names (HEX IDX)…) (table CAPS…)
         CAPS = ~ | (caps G…)  G = ~ | (S E)      answers of captures_at(cut haystack, pos) for pos = 0, 1, …
      -> out=HEX dst=HEX spans=S:E …                          (bytes written for the block; replacement buffer; offsets)
+  c19.mlprintc … same arguments, then (std …) as in Driver/PrinterProto: the block printed under that printer
+        configuration (path, --column, -b, -o, --vimgrep) instead of the default one
 -/
 namespace RgVerif.Driver.C19Multi
 open RgVerif RgVerif.Matcher RgVerif.Interp RgVerif.Replace RgVerif.Printer RgVerif.ReplaceMulti
@@ -56,6 +59,17 @@ def handle (cmd : String) (args : List Sx) : String :=
       let out := printReplacedBlock sc {} capsAtOf names hay rs re off ln t
       s!"out={toHex out} dst={toHex st.dst} spans={showSpans st.spans}"
     | _, _, _, _, _, _, _, _, _ => "bad-op"
+  | "c19.mlprintc", [lt, hay, rs, re, off, ln, t, .list (.atom "names" :: ns), .list (.atom "table" :: tab), std] =>
+    match parseLT lt, hay.bytes?, rs.nat?, re.nat?, off.nat?, optNatOf ln, t.bytes?, parseNames ns, tab.mapM parseCaps,
+        RgVerif.Driver.PrinterProto.parseStd std with
+    | some lt, some hay, some rs, some re, some off, some ln, some t, some names, some tab, some c =>
+      let tabA := tab.toArray
+      let sc : SCfg := { lt, multiLine := true }
+      let capsAtOf : Bytes → Nat → Option Caps := fun _ pos => (tabA[pos]?).join
+      let st := replaceAllMulti sc capsAtOf names hay rs re t
+      let out := printReplacedBlock sc c capsAtOf names hay rs re off ln t
+      s!"out={toHex out} dst={toHex st.dst} spans={showSpans st.spans}"
+    | _, _, _, _, _, _, _, _, _, _ => "bad-op"
   | _, _ => "bad-op"
 
 end RgVerif.Driver.C19Multi
